@@ -23,6 +23,7 @@ import math
 from enum import Enum
 
 from ..lib.common import Ctx, MachineryError, jdump, repo_python_path
+from . import c02_restr as rt
 
 MANIFEST = {
     "engine": "E3-Adapt",
@@ -30,12 +31,18 @@ MANIFEST = {
                  "+ regenerated branch/sort tables + differential correspondence; the Lean validator `Conforms` is the oracle on the real parser",
     "text": "Theorems in lean/Jap/Props/C02.lean prove for all type hints of the modelled grammar, all values and all loader oracles: accepted values "
             "conform (for the validator relaxed exactly at Literal `==` and dict keys; strictly under the two stated hypotheses), conforming values are "
-            "accepted, containers are accepted exactly when every element is, a Union exactly when a member accepts, independently of member order, in "
-            "the value and in the string channel; str arguments are returned verbatim.  The model is tied to /repo by regenerated tables and by "
-            "comparing model and real parser on generated (type, value) pairs incl. all permutations of every Union.",
+            "accepted, containers are accepted exactly when every element is (value channel; in the string channel exactly when what the loader made "
+            "of the text is), a Union exactly when a member accepts, independently of member order, in the value and in the string channel; str "
+            "arguments are returned verbatim.  Restricted string/number types are leaves of the grammar at any depth: `Conforms` includes their "
+            "predicate, a restricted leaf accepts exactly the convertible values whose converted value satisfies the restriction, a restricted string "
+            "type exactly the strings its pattern matches from the start (regex.match, not search; equal for ^-anchored patterns), judged on the "
+            "argument text alone.  The model is tied to /repo by regenerated tables (every statement of the transcribed branches of adapt_typehints, "
+            "_check_type, the loader front end, the validation functions of typing.py) and by comparing model and real parser on generated (type, "
+            "value) pairs incl. all permutations of every Union; restricted predicates are computed by the model from the type's specification.",
     "level_note": "Trusted: Lean kernel; axioms propext/Quot.sound/Classical.choice; the extractor; the correspondence harness and generators; PyYAML and "
-                  "jsonargparse's yaml_load/load_value/int()/float() enter as oracles. Outside the model: Callable, Type, Annotated, TypedDict, dataclass and "
-                  "subclass types, registered/restricted types (C20), paths (C19), nargs/append, enable_path.",
+                  "jsonargparse's yaml_load/load_value/int()/float() enter as oracles; the translation of Python patterns into the model's regular expressions "
+                  "(harness, via re._parser; ASCII subjects). Outside the model: Callable, Type, Annotated, TypedDict, dataclass and subclass types, "
+                  "registered types other than the restricted ones (C20), paths (C19), nargs/append, enable_path.",
 }
 
 FINDING_LITERAL = "C02-literal-pyeq"
@@ -106,6 +113,8 @@ def to_typing(d):
         return Literal[tuple(d["lit"])]
     if "e" in d:
         return ENUMS[d["e"][0]]
+    if "rn" in d:
+        return rt.cls_of(d["rn"][1])
     raise MachineryError("bad descriptor %r" % (d,))
 
 
@@ -127,6 +136,11 @@ def desc_of(T):
         return "any"
     if isinstance(T, type) and issubclass(T, Enum):
         return enum_desc(ENUMS.index(T))
+    if isinstance(T, type) and hasattr(T, "_type") and (hasattr(T, "_restrictions") or hasattr(T, "_regex")):
+        k = rt.index_of(T)
+        if k is None:
+            raise MachineryError("restricted type outside the pool: %r" % (T,))
+        return rt.desc(k)
     o = typing.get_origin(T)
     a = typing.get_args(T)
     if o is typing.Union:
@@ -151,7 +165,7 @@ def normalise(d):
 
 
 def ty_depth(d):
-    if isinstance(d, str) or "lit" in d or "e" in d:
+    if isinstance(d, str) or "lit" in d or "e" in d or "rn" in d:
         return 0
     if "u" in d:
         return 1 + max(ty_depth(x) for x in d["u"])
@@ -164,7 +178,7 @@ def ty_depth(d):
 
 def ty_children(d):
     """[(path-step, child)]"""
-    if isinstance(d, str) or "lit" in d or "e" in d:
+    if isinstance(d, str) or "lit" in d or "e" in d or "rn" in d:
         return []
     if "u" in d:
         return [(("u", i), x) for i, x in enumerate(d["u"])]
@@ -225,15 +239,15 @@ def enc(x, depth=0, sort_sets=True):
     if isinstance(x, int):
         if abs(x) >= 10 ** 400:
             raise Unencodable("huge int")
-        return x
+        return int(x)                              # an instance of a restricted int type is the plain number
     if isinstance(x, float):
-        return {"f": repr(x)}
+        return {"f": repr(float(x))}
     if isinstance(x, str):
         try:
             x.encode("utf-8")
         except UnicodeEncodeError:
             raise Unencodable("surrogate")
-        return x
+        return str(x)
     if isinstance(x, Enum):
         if type(x) in ENUMS:
             return {"e": [ENUMS.index(type(x)), x.name]}
@@ -432,6 +446,67 @@ def build_tables(*values):
             "intof": [[s, r] for s, r in itab.items()], "bigflt": [[i, r] for i, r in btab.items()]}
 
 
+def _nodes(j):
+    yield j
+    if isinstance(j, list):
+        for x in j:
+            yield from _nodes(x)
+    elif isinstance(j, dict) and ("t" in j or "s" in j):
+        for x in j.get("t", j.get("s")):
+            yield from _nodes(x)
+    elif isinstance(j, dict) and "d" in j:
+        for _, v in j["d"]:
+            yield from _nodes(v)
+
+
+def tables_for(desc, *values):
+    """`build_tables` plus, when the type has restricted leaves: their specifications ("rspec": the model computes the
+    predicates itself), `int(s)` / `float(s)` for every string the model may meet ("numstr") and the base type applied to
+    every node that is not of the base type ("baseof", the serializer of a restricted type).  int() / float() / str() are
+    Python builtins, not code under test."""
+    tabs = build_tables(*values)
+    ks = rt.indices_in(desc)
+    if not ks:
+        return tabs
+    tabs["rspec"] = rt.rspec_of(desc)
+    numstr = []
+    for s, _r in tabs["yaml"]:
+        for tag, fn in (("int", int), ("float", float)):
+            try:
+                w = enc(fn(s))
+            except (ValueError, OverflowError):
+                w = None
+            numstr.append([tag, s, w])
+    tabs["numstr"] = numstr
+    seen = {}
+    for v in values:
+        for u in _nodes(v):
+            seen[jdump(u)] = u
+    for _s, r in tabs["yaml"] + tabs["any"]:
+        if r is not EXC:
+            for u in _nodes(r):
+                seen[jdump(u)] = u
+    bases = {rt.base_tag(k) for k in ks}
+    baseof = []
+    for u in seen.values():
+        try:
+            pu = to_py(u)
+        except TypeError:
+            continue
+        for tag, fn in (("int", int), ("float", float), ("str", str)):
+            if tag not in bases or (type(pu) is fn):
+                continue
+            try:
+                w = enc(fn(pu))
+            except Unencodable:
+                raise
+            except Exception:  # noqa: BLE001 - the builtin refuses the value
+                w = None
+            baseof.append([tag, u, w])
+    tabs["baseof"] = baseof
+    return tabs
+
+
 # ---------------------------------------------------------------- real side
 _PARSERS: dict = {}
 
@@ -511,11 +586,12 @@ def accepted(obs):
 # ---------------------------------------------------------------- model side
 def model_item(desc, channel, inp, extra=()):
     want = ["parseObj" if channel == "obj" else "parseArg", "conf"] + list(extra)
-    return {"t": desc, "v": inp, "o": build_tables(inp), "want": want}
+    return {"t": desc, "v": inp, "o": tables_for(desc, inp), "want": want}
 
 
 def conf_item(desc, wire):
-    return {"t": desc, "v": wire, "o": {}, "pure": True, "want": ["conf", "confLit", "confKey", "confLoose"]}
+    o = {"rspec": rt.rspec_of(desc)} if rt.indices_in(desc) else {}
+    return {"t": desc, "v": wire, "o": o, "pure": True, "want": ["conf", "confLit", "confKey", "confLoose", "confBase"]}
 
 
 def model_obs(res, channel):
@@ -557,6 +633,9 @@ INTKEY_POOL = [0, 1, 2, -5, 10]
 
 def gen_leafish(rng, top, hashable):
     r = rng.random()
+    if r >= 0.86:
+        # a restricted string / number type (library and user-defined; see c02_restr.py)
+        return rt.desc(rng.randrange(rt.N_TYPES))
     if r < 0.62:
         opts = ["str", "int", "float", "bool"] + ([] if top else ["none"]) + ([] if hashable else ["any"])
         return rng.choice(opts)
@@ -688,6 +767,12 @@ def gen_input(rng, d, forms=True, hashable=False):
     if "e" in d:
         n = rng.choice(d["e"][1])
         return n if forms and rng.random() < 0.7 else {"e": [d["e"][0], n]}
+    if "rn" in d:
+        # forms=False: a value the declaration of the type says conforms; forms=True: also text / other-kind forms and,
+        # for one in four, a near miss (a string that only CONTAINS a match, a match followed by junk, a number just
+        # outside the bounds) - so that restricted leaves nested in containers / Unions see refusals too
+        near_miss = forms and rng.random() < 0.25
+        return rt.gen_value(rng, d["rn"][1], not near_miss, forms)
     raise MachineryError("gen_input %r" % (d,))
 
 
@@ -885,6 +970,88 @@ def prefix_union_cases(rng, n):
         t = to_text(v)
         if t is not None:
             out.append((desc, "arg", t, "prefix-union-text"))
+    return out
+
+
+def restricted_family_cases(rng, per_type):
+    """[(desc, channel, input, origin)]: EVERY restricted type of the pool at a leaf, inside List / Dict / Tuple / Set /
+    Optional and as a Union member, with conforming values and near misses (a string that only contains a match, a match
+    followed by junk, numbers on and just outside the bounds, other kinds), as values and as argument text"""
+    out = []
+    for k in range(rt.N_TYPES):
+        d = rt.desc(k)
+        other = rt.desc((k + 1 + rng.randrange(rt.N_TYPES - 1)) % rt.N_TYPES)
+        for _ in range(per_type):
+            vals = [rt.gen_value(rng, k, True, False), rt.gen_value(rng, k, True, True), rt.gen_value(rng, k, False, True),
+                    rt.gen_value(rng, k, False, False)]
+            v = rng.choice(vals)
+            w = rng.choice(vals)
+            pos = rng.choice(["leaf", "leaf", "list", "dict", "tuple", "tuplevar", "set", "optional", "union", "opt-list-union"])
+            if pos == "leaf":
+                desc, x = d, v
+            elif pos == "list":
+                desc, x = {"l": d}, [w, v]
+            elif pos == "dict":
+                desc, x = {"d": ["str", d]}, {"d": [["a", w], ["b", v]]}
+            elif pos == "tuple":
+                desc, x = {"t": [d, other]}, rng.choice([[v, rt.gen_value(rng, other["rn"][1], True, False)], {"t": [v, rt.gen_value(rng, other["rn"][1], rng.random() < 0.7, False)]}])
+            elif pos == "tuplevar":
+                desc, x = {"tv": d}, {"t": [v, w]}
+            elif pos == "set":
+                desc, x = {"s": d}, [v, w]
+            elif pos == "optional":
+                desc, x = {"u": [d, "none"]}, rng.choice([v, None])
+            elif pos == "union":
+                m = rng.choice(["int", "bool", {"l": "int"}, other, "float"])
+                desc, x = {"u": rng.sample([d, m], 2)}, rng.choice([v, 3, [1]])
+            else:
+                desc, x = {"u": [{"l": {"u": [d, "int"]}}, "none"]}, [v, 3]
+            try:
+                desc = normalise(desc)
+                enc(to_py(x))
+            except Exception:  # noqa: BLE001 - e.g. an unhashable element for the Set position
+                continue
+            out.append((desc, "obj", x, "restricted:" + pos))
+            t = to_text(x)
+            if t is not None:
+                out.append((desc, "arg", t, "restricted:" + pos + "-text"))
+    return out
+
+
+def restricted_leaf_exhaustive(thorough):
+    """every restricted type of the pool against a deterministic value list: for a string type every declared example,
+    every example behind every junk prefix and in front of every junk suffix; for a number type every candidate as a
+    number, as text and as the other numeric kind - as a value and as argument text"""
+    out = []
+    for k in range(rt.N_TYPES):
+        d = rt.desc(k)
+        if k < rt.N_STR:
+            _n, _p, _f, _c, good, bad = rt.declared(k)
+            pres = rt.JUNK_PRE if thorough else rt.JUNK_PRE[:4]
+            posts = rt.JUNK_POST if thorough else rt.JUNK_POST[:4]
+            vals = list(good) + list(bad) + [p + g for g in good for p in pres] + [g + q for g in good for q in posts] + [5, None, [good[0]]]
+        else:
+            base = rt.declared(k)[1]
+            cands = rt.INT_CANDS if base is int else rt.FLT_CANDS
+            vals = []
+            for x in cands:
+                vals.append(x if base is int else {"f": repr(x)})
+                vals.append(str(x) if base is int else repr(x))
+                if base is int:
+                    vals.append({"f": repr(float(x))})
+                elif float(x).is_integer() and abs(x) < 2 ** 53:
+                    vals.append(int(x))
+            vals += [True, None, "abc", "", {"f": "nan"}, {"f": "inf"}, {"f": "-inf"}, {"f": "0.5"}, "0x10", "1_0", " 3 ", [1]]
+            if base is int:      # floats that are not integers (numbers and text), integral floats as text
+                vals += [{"f": "2.5"}, {"f": "7.5"}, {"f": "-3.5"}, {"f": "9.99"}, {"f": "1e-07"}, "2.5", "7.0", "1e1"]
+        seen = set()
+        for v in vals:
+            if jdump(v) in seen:
+                continue
+            seen.add(jdump(v))
+            out.append((d, "obj", v, "restricted-exhaustive"))
+            if isinstance(v, str) and v != "--" and not v.startswith("\n"):
+                out.append((d, "arg", v, "restricted-exhaustive-text"))
     return out
 
 
@@ -1185,7 +1352,7 @@ def generated_cases(ctx, n_types, n_inputs, perm_cap):
         cs = gen_cases(ctx.rng, desc, n_inputs)
         for ch, inp, origin in cs:
             cases.append((desc, ch, inp, origin))
-    for desc, ch, inp, origin in prefix_union_cases(ctx.rng, max(40, n_types // 3)):
+    for desc, ch, inp, origin in prefix_union_cases(ctx.rng, max(40, n_types // 3)) + restricted_family_cases(ctx.rng, max(6, n_types // 40)):
         if jdump(desc) not in variants:
             variants[jdump(desc)] = union_variants(desc, perm_cap)
         cases.append((desc, ch, inp, origin))
@@ -1301,13 +1468,19 @@ def size_of(b):
 
 def run(ctx: Ctx):
     repo_python_path()
-    ctx.rule = ("(type hint, channel, input) with the type hint drawn from the grammar str|int|float|bool|None|Any|Literal|Enum|Union|List|Dict[str/int,_]|"
-                "Tuple[..]|Tuple[_,...]|Set up to nesting depth 4; inputs: conforming values, input forms (tuple as list, enum by name, text for "
+    ctx.rule = ("(type hint, channel, input) with the type hint drawn from the grammar str|int|float|bool|None|Any|Literal|Enum|restricted string/number types (24: the 8 "
+                "that ship with the library and 16 user-defined ones, among them patterns not anchored with ^ or $, a compiled pattern with flags, "
+                "or-joined comparisons)|Union|List|Dict[str/int,_]|Tuple[..]|Tuple[_,...]|Set up to nesting depth 4; inputs: conforming values, input forms (tuple as list, enum by name, text for "
                 "scalars...), one-position mutations (wrong scalar kind, arity, unknown member, bool for int), JSON text of these and look-alike "
                 "strings; every case is run on the real parser (parse_object / parse_args) and on the Lean model, every accepted result is judged by "
                 "the Lean validator, and repeated under every permutation of every Union; non-trivial = accepted by the real parser; distinct by "
                 "canonical JSON of (type, channel, input)")
     ctx.assumptions = [
+        "restricted types: a fixed pool (harness/props/c02_restr.py); their predicates are computed by the Lean model from the declared "
+        "specification (regular expression via CPython's re._parser into the model's Re with the meaning of regex.match; comparisons on exact "
+        "decimals) - never by asking the class; ASCII subjects; floats compare like the decimals of their repr (exact for two floats); float "
+        "references and int values of magnitude < 2^53; int(str)/float(str)/str() are oracles (Python builtins)",
+        "an int beyond the float range given to a restricted FLOAT type outside a Union raises OverflowError (not an ArgumentError; C03's subject): not generated",
         "arguments with a default: a fixed family (conforming and sentinel defaults; values equal to the default by == but of another kind) "
         "through parse_object / config text / argv, against the model's `checkTypeD` (the default early-out of adapt_typehints)",
         "otherwise one optional argument without nargs/default/enable_path; parser_mode yaml; values inside the wire grammar (str/int dict keys, |int| < 10^400)",
@@ -1329,7 +1502,7 @@ def run(ctx: Ctx):
     gen, variants = generated_cases(ctx, n_types, n_inputs, perm_cap)
     for d, *_ in corpus:
         variants.setdefault(jdump(d), union_variants(d, None))
-    cases = corpus + gen
+    cases = corpus + gen + restricted_leaf_exhaustive(ctx.thorough)
     if ctx.thorough:
         cases += exhaustive_small(ctx)
     ctx.extra["types"] = len({jdump(c[0]) for c in cases})
